@@ -3,7 +3,7 @@ The whole sheet: the lock-step simulation over all rows, the emitted node list (
 node-producing rows, in row order), and facts about the two node lists used to compare the
 index-resolved abstractions of the compiled flow and of the reference flow.
 -/
-import Rpft.Lemmas.CoreRow
+import Rpft.Lemmas.CoreMerge
 import Rpft.Lemmas.FlowAbs
 import Rpft.Lemmas.CompileFinalB
 import Rpft.Lemmas.RefFlowClosed
@@ -12,10 +12,15 @@ set_option linter.unusedVariables false
 namespace Rpft.CoreSheet
 open Rpft Rpft.Compile Rpft.RefFlow Rpft.Flow
 
-theorem rel_init (rows : List CRow) (M : Maps) (hM : ∀ j, M.rOf j = none) (noArgs testTypes : List Str)
+theorem rel_init (rows : List CRow) (M : Maps) (hM : ∀ j, M.rOf j = none) (hel : ∀ j, M.el j = false)
+    (hfr : ∀ j, M.fr j = false) (noArgs testTypes : List Str)
     (h : noArgs = RefFlow.noArgsTests) : Rel rows M false 0 (initSt noArgs testTypes) {} := by
-  refine ⟨by rw [gOf_zero]; rfl, by rw [gOf_zero]; rfl, fun j c hj => absurd hj (Nat.not_lt_zero j), rfl, rfl,
-    ?_, by simp [gOf_zero], ?_, ?_, h, ?_, ?_, ?_, fun j _ => hM j, ?_⟩
+  refine ⟨by rw [gOf_zero]; rfl, by rw [gOf_zero]; rfl, fun j c hj => absurd hj (Nat.not_lt_zero j),
+    fun j c hj => absurd hj (Nat.not_lt_zero j), fun j _ _ _ => hel j, ?_, ?_, rfl, rfl,
+    ?_, by simp [gOf_zero], ?_, ?_, h, ?_, ?_, ?_, fun j _ => hM j, fun j _ _ _ => hM j, ?_,
+    ⟨fun p hp => by simp [initSt] at hp, fun i _ hi => absurd hi (Nat.not_lt_zero i)⟩⟩
+  · intro j hj; rw [hfr j] at hj; cases hj
+  · intro e he; cases he
   · intro p hp; cases hp
   · intro e he; cases he
   · intro e he; cases he
@@ -27,6 +32,18 @@ theorem rel_init (rows : List CRow) (M : Maps) (hM : ∀ j, M.rOf j = none) (noA
     · exact absurd h1.1 (by simp)
   · intro j i' hi'; rw [hM j] at hi'; cases hi'
   · intro i n r hn; simp [initSt] at hn
+
+theorem relN_init (rows : List CRow) (M : Maps) (hM : ∀ j, M.rOf j = none) (hel : ∀ j, M.el j = false)
+    (hfr : ∀ j, M.fr j = false) (noArgs testTypes : List Str)
+    (h : noArgs = RefFlow.noArgsTests) : RelN rows M 0 (initSt noArgs testTypes) {} := by
+  refine ⟨{}, [], rel_init rows M hM hel hfr noArgs testTypes h, rfl, rfl, ?_, rfl, ?_, ?_, ?_, ?_, ?_, ?_⟩
+  · intro j; simp [outOf]
+  · intro e he; cases he
+  · intro e he; cases he
+  · intro N hN; rw [hfr N] at hN; cases hN
+  · intro N hN; rw [hel N] at hN; cases hN
+  · intro N c hN; exact absurd hN (Nat.not_lt_zero N)
+  · intro N _ hN; exact absurd hN (Nat.not_lt_zero N)
 
 /-- pass 1 only ever adds out-edges -/
 theorem pass1Row_prefix (r : RRow) (st st' : P1) (k : Nat) (h : pass1Row st k r = .ok st') :
@@ -50,8 +67,19 @@ theorem pass1Row_prefix (r : RRow) (st st' : P1) (k : Nat) (h : pass1Row st k r 
            injection h with h; subst h
            exact addEdges_prefix _ st st1 _ h1)
 
-theorem fold_prefix : ∀ (l : List RRow) (k : Nat) (st st' : P1),
-    (l.zipIdx k).foldlM (fun st (p : RRow × Nat) => pass1Row st p.2 p.1) st = .ok st' →
+/-- the fused pass only ever adds out-edges, too -/
+theorem pass1RowF_prefix (rows : List CRow) (c : CRow) (st st' : P1) (k : Nat) (h : pass1RowF rows st k c = .ok st') :
+    st.out.reverse <+: st'.out.reverse := by
+  unfold pass1RowF at h
+  split at h
+  · repeat' split at h
+    all_goals first
+      | (injection h with h; subst h; exact List.prefix_refl _)
+      | cases h
+  · exact pass1Row_prefix _ st st' k h
+
+theorem fold_prefix (rows : List CRow) : ∀ (l : List CRow) (k : Nat) (st st' : P1),
+    (l.zipIdx k).foldlM (fun st (p : CRow × Nat) => pass1RowF rows st p.2 p.1) st = .ok st' →
     st.out.reverse <+: st'.out.reverse := by
   intro l
   induction l with
@@ -62,31 +90,69 @@ theorem fold_prefix : ∀ (l : List RRow) (k : Nat) (st st' : P1),
   | cons c l ih =>
     intro k st st' h
     simp only [List.zipIdx_cons, List.foldlM_cons, bind, Except.bind] at h
-    cases h1 : pass1Row st k c with
+    cases h1 : pass1RowF rows st k c with
     | error err => rw [h1] at h; cases h
     | ok st1 =>
       rw [h1] at h
-      exact (pass1Row_prefix c st st1 k h1).trans (ih (k + 1) st1 st' h)
+      exact (pass1RowF_prefix rows c st st1 k h1).trans (ih (k + 1) st1 st' h)
 
-theorem rows_sim (rows : List CRow) (outF : List OutEdge) (g : Good rows outF) : ∀ (l : List CRow) (k : Nat),
+/-- a row of the fragment: the compiler machine and (fused) pass 1 stay related -/
+theorem row_simN (rows : List CRow) (outF : List OutEdge) (g : Good rows outF) (hsh : noopShape rows outF = true)
+    (hFull : ∃ p, outF.foldlM (schedStep rows) [] = some p) (M : Maps) (k : Nat) (c : CRow)
+    (hc : rows[k]? = some c) (hf : rowOk c = true) (s : Compile.St) (stT stT' : P1) (h : RelN rows M k s stT)
+    (hst : pass1RowF rows stT k c = .ok stT') (hpre : stT'.out.reverse <+: outF) :
+    wp (step (toEvent c)) s (fun _ s' => ∃ M', RelN rows M' (k + 1) s' stT') := by
+  cases hm : c.merged && isNamedAct c with
+  | true =>
+    -- a merged row is an action row
+    have hf' : nodeRowOk c = true := by
+      simp only [Bool.and_eq_true] at hm
+      have hsp : specialTypes.contains c.row.type = false := by
+        have := hm.2; unfold isNamedAct at this
+        simp only [Bool.and_eq_true, Bool.not_eq_true'] at this; exact this.1
+      obtain ⟨_, _, _, _, _, _, _, h8, h9, h10, h11, _⟩ := not_special hsp
+      simp only [rowOk, Bool.or_eq_true] at hf
+      rcases hf with ((hf | hf) | hf) | hf
+      · exact hf
+      · simp only [exitRow, Bool.and_eq_true, Bool.or_eq_true, decide_eq_true_eq] at hf
+        rcases hf.1 with h1 | h1
+        · exact absurd h1 h10
+        · exact absurd h1 h11
+      · simp only [gotoRow, Bool.and_eq_true, decide_eq_true_eq] at hf
+        exact absurd hf.1 h9
+      · simp only [noopRow, isNoop, Bool.and_eq_true, decide_eq_true_eq] at hf
+        exact absurd hf.1.1 h8
+    exact merge_row_simN rows outF g M k c hc hf' hm s stT stT' h hst
+  | false =>
+    have hst' : pass1Row stT k (toRRow c) = .ok stT' := by
+      unfold pass1RowF at hst; rw [hm] at hst; simpa using hst
+    simp only [rowOk, Bool.or_eq_true] at hf
+    rcases hf with ((hf | hf) | hf) | hf
+    · exact node_row_simN rows outF g hsh hFull M k c hc hf hm s stT stT' h hst' hpre
+    · exact exit_row_simN rows outF g hsh hFull M k c hc hf s stT stT' h hst' hpre
+    · exact goto_row_simN rows outF g hsh hFull M k c hc hf s stT stT' h hst' hpre
+    · exact noop_row_simN rows outF g hFull M k c hc hf s stT stT' h hst' hpre
+
+theorem rows_simN (rows : List CRow) (outF : List OutEdge) (g : Good rows outF) (hsh : noopShape rows outF = true)
+    (hFull : ∃ p, outF.foldlM (schedStep rows) [] = some p) : ∀ (l : List CRow) (k : Nat),
     (∀ (i : Nat) (c : CRow), l[i]? = some c → rows[k + i]? = some c) → (∀ c ∈ l, rowOk c = true) →
-    ∀ (M : Maps) (s : Compile.St) (st st' : P1), Rel rows M false k s st →
-      ((l.map toRRow).zipIdx k).foldlM (fun st (p : RRow × Nat) => pass1Row st p.2 p.1) st = .ok st' →
+    ∀ (M : Maps) (s : Compile.St) (st st' : P1), RelN rows M k s st →
+      (l.zipIdx k).foldlM (fun st (p : CRow × Nat) => pass1RowF rows st p.2 p.1) st = .ok st' →
       st'.out.reverse <+: outF →
-      wp (steps (l.map toEvent)) s (fun _ s' => ∃ M', Rel rows M' false (k + l.length) s' st') := by
+      wp (steps (l.map toEvent)) s (fun _ s' => ∃ M', RelN rows M' (k + l.length) s' st') := by
   intro l
   induction l with
   | nil =>
     intro k _ _ M s st st' h hst _
-    simp only [List.map_nil, List.zipIdx_nil, List.foldlM_nil, pure, Except.pure, Except.ok.injEq] at hst
+    simp only [List.zipIdx_nil, List.foldlM_nil, pure, Except.pure, Except.ok.injEq] at hst
     subst hst
     simp only [List.map_nil]
     unfold steps; wp_simp
     exact ⟨M, by simpa using h⟩
   | cons c l ih =>
     intro k hrows hfr M s st st' h hst hpre
-    simp only [List.map_cons, List.zipIdx_cons, List.foldlM_cons, bind, Except.bind] at hst
-    cases h1 : pass1Row st k (toRRow c) with
+    simp only [List.zipIdx_cons, List.foldlM_cons, bind, Except.bind] at hst
+    cases h1 : pass1RowF rows st k c with
     | error err => rw [h1] at hst; cases hst
     | ok st1 =>
       rw [h1] at hst
@@ -95,8 +161,8 @@ theorem rows_sim (rows : List CRow) (outF : List OutEdge) (g : Good rows outF) :
       unfold steps
       wp_simp
       have hck : rows[k]? = some c := by have := hrows 0 c (by simp); simpa using this
-      have hpre1 : st1.out.reverse <+: outF := (fold_prefix _ (k + 1) st1 st' hst).trans hpre
-      refine wp_mono (row_sim rows outF g M k c hck (hfr c (by simp)) s st st1 h h1 hpre1) ?_
+      have hpre1 : st1.out.reverse <+: outF := (fold_prefix rows _ (k + 1) st1 st' hst).trans hpre
+      refine wp_mono (row_simN rows outF g hsh hFull M k c hck (hfr c (by simp)) s st st1 h h1 hpre1) ?_
       intro _ s1 ⟨M1, r1⟩
       have := ih (k + 1) (fun i c' hi => by
         have := hrows (i + 1) c' (by simpa using hi)
@@ -111,11 +177,11 @@ theorem rows_sim (rows : List CRow) (outF : List OutEdge) (g : Good rows outF) :
 /-- the arena indices of the nodes of row `j` (none when the row produces no node) -/
 def nodeIdxs (rows : List CRow) (M : Maps) (j : Nat) : List Nat :=
   match rows[j]? with
-  | some c => if isNodeRow c then idxs M j else []
+  | some c => if isNodeRow c && !M.el j then idxs M j else []
   | none => []
 
-theorem emit_rel {rows : List CRow} {M : Maps} {s : Compile.St} {st : P1}
-    (h : Rel rows M false rows.length s st) :
+theorem emit_rel {rows : List CRow} {M : Maps} {s : Compile.St} {st stT : P1} {pnd : List OutEdge}
+    (h : Rel rows M false rows.length s st) (hs : Sched rows M rows.length s stT st pnd) :
     emit s (s.groups.size + 2) 0 = (List.range rows.length).flatMap (nodeIdxs rows M) := by
   have e1 : emit s (s.groups.size + 1 + 1) 0 =
       (List.range' 1 (gOf rows rows.length - 1)).flatMap (emit s (s.groups.size + 1)) := by
@@ -133,11 +199,24 @@ theorem emit_rel {rows : List CRow} {M : Maps} {s : Compile.St} {st : P1}
       rw [List.range_succ, List.flatMap_append, ← ihm (by omega), gOf_succ rows m c hc]
       have hpos := gOf_pos rows m
       by_cases hn : isNodeRow c = true
-      · have hg := h.grp m c (by omega) hc hn
-        have e2 : gOf rows m + (if isNodeRow c = true then 1 else 0) - 1 = (gOf rows m - 1) + 1 := by simp [hn] <;> omega
+      · have e2 : gOf rows m + (if isNodeRow c = true then 1 else 0) - 1 = (gOf rows m - 1) + 1 := by simp [hn] <;> omega
         rw [e2, List.range'_concat, List.flatMap_append]
         have e3 : 1 + (gOf rows m - 1) = gOf rows m := by omega
-        simp [e3, emit, hg, nodeIdxs, hc, hn, idxs]
+        cases hnn : isNoop c with
+        | false =>
+          have hg := h.grp m c (by omega) hc hn hnn
+          have hel := h.elno m c hc hnn
+          simp [e3, emit, hg, nodeIdxs, hc, hn, idxs, hel]
+        | true =>
+          obtain ⟨ps, ro, hg, hro⟩ := h.grpN m c (by omega) hc hnn
+          cases hel : M.el m with
+          | false =>
+            rw [hro hel] at hg
+            have hr : M.rOf m = none := h.rnoop m c hc hnn
+            simp [e3, emit, hg, nodeIdxs, hc, hn, idxs, hel, hr]
+          | true =>
+            obtain ⟨ps', hg'⟩ := hs.elgrp m hel (by omega) ⟨c, hc, hnn⟩
+            simp [e3, emit, hg', nodeIdxs, hc, hn, hel]
       · have hn' : isNodeRow c = false := by simpa using hn
         simp [hn', nodeIdxs, hc]
   exact this rows.length (Nat.le_refl _)
@@ -212,6 +291,14 @@ theorem mkNode_plain (k : Nat) (r : RRow) (es : List OutEdge) (hk : r.kind = .ac
 theorem absNode_plain_ref (lvl : ObsLevel) (r : Flow) (k : Nat) (act : Option Str) (d : Option Id) :
     absNode lvl r (plainRef k act d) = { acts := act.toList, ask := none, dests := [destIdx r d] } := by
   cases act <;> simp [absNode, plainRef]
+
+theorem absNode_plain_cmp' (lvl : ObsLevel) (f : Flow) (n : NodeM) (l : List Str) (hr : n.router = none)
+    (ha : n.actions.map (·.2) = l) :
+    absNode lvl f (renderNode n) =
+      { acts := l, ask := none, dests := [destIdx f (renderDest n.dexitDest)] } := by
+  simp only [absNode, renderNode, hr, Option.map_none, List.map_map, List.head?_cons, Option.bind_some]
+  rw [← ha]
+  simp [Function.comp_def]
 
 theorem absNode_plain_cmp (lvl : ObsLevel) (f : Flow) (n : NodeM) (act : Option Str) (hr : n.router = none)
     (ha : n.actions.map (·.2) = act.toList) :
